@@ -11,7 +11,9 @@ text/plain (C18.e); image errors carry the requested content type and a default 
 every literal status code has a reason phrase (C18.g).
 Added in round 4: no client-visible error is built from the text of a caught I/O level exception
 except through the helper that strips file references (C18.o).
-Added in round 5: every KML href is escaped (C18.p)."""
+Added in round 5: every KML href is escaped (C18.p).
+Added in round 6: optional CGI variables are read with a default (C18.q); the checked format reaches
+the response (C18.r, shared C16.b)."""
 import ast
 import re
 
